@@ -243,6 +243,9 @@ def write_evidence(prop, tier, seed, spec, results, kani_results, obligations, d
         per_run.append(dict(unit=r["unit"], feature_set=r["fs"], status=r["status"], verus_verified=r.get("verified_count"),
                             verus_errors_incl_canary=r.get("error_count"), smt_ms=r.get("smt_ms"), wall_s=round(r.get("wall_s", 0), 2),
                             canary_rejected=r.get("canary_failed")))
+    panic_sites = None
+    if prop == "C07":
+        panic_sites = count_panic_sites(results)
     # mechanical scan of generated files for assumptions
     scan = {}
     for r in results:
@@ -264,6 +267,7 @@ def write_evidence(prop, tier, seed, spec, results, kani_results, obligations, d
                             runs=per_run, solver_ms=solver_ms,
                             kani=[dict(name=k["name"], status=k["status"], harnesses=k.get("harnesses"), bounded=k.get("bounded", False), note=k.get("note", "")) for k in kani_results],
                             not_decided=spec.get("not_decided", []),
+                            panic_sites=panic_sites,
                             bounded_stand_ins=[dict(b, note="bounded: fixed scenario on the real binary; not counted as a discharged obligation") for b in spec.get("_bounded_runs", [])],
                             explanation=spec.get("explanation", ""),
                             known_findings=[f"{k['label']} in {k['fn']}: {k['text']}" for k in known]),
@@ -272,6 +276,42 @@ def write_evidence(prop, tier, seed, spec, results, kani_results, obligations, d
     os.makedirs(os.path.join(ROOT, "evidence"), exist_ok=True)
     with open(os.path.join(ROOT, "evidence", f"{prop}.json"), "w") as f:
         json.dump(ev, f, indent=1)
+
+def count_panic_sites(results):
+    """panic-capable sites in /repo/src (outside #[cfg(test)] modules) and how many lie inside functions whose real text is verified"""
+    import glob
+    pat = re.compile(r"\b(panic!|unreachable!|assert!|assert_eq!|unimplemented!|todo!)|\.unwrap\(\)|\.expect\(")
+    covered_fns = {}
+    for r in results:
+        meta = r.get("meta")
+        if not meta: continue
+        for fr in meta["verified"]:
+            covered_fns.setdefault(fr["file"], set()).add((fr["name"], fr["repo_line"]))
+    total = inside = 0
+    from gen import source
+    for path in sorted(glob.glob("/repo/src/**/*.rs", recursive=True)):
+        rel = os.path.relpath(path, "/repo")
+        text = open(path).read()
+        cut = text.find("#[cfg(test)]")
+        body = text if cut < 0 else text[:cut]
+        ranges = []
+        if rel in covered_fns:
+            src = source(rel)
+            for name, line in covered_fns[rel]:
+                for nth in range(6):
+                    try:
+                        d = src.find_fn(name, None, None, nth) if True else None
+                    except Exception:
+                        break
+                    if src.line_of(d["kw"]) == line:
+                        ranges.append((d["start"], d["end"])); break
+                else:
+                    continue
+        for m in pat.finditer(body):
+            if "#[cfg(kani)]" in body[:m.start()] and "mod verif_kani" in body[:m.start()]: continue
+            total += 1
+            if any(a <= m.start() < b for a, b in ranges): inside += 1
+    return dict(total_sites_in_src=total, inside_verified_functions=inside, rule="regex over /repo/src outside #[cfg(test)]: panic!/unreachable!/assert!/unwrap()/expect(")
 
 def replay_file(path):
     import replay
